@@ -113,17 +113,17 @@ def lex_cases(rng, thorough):
             for via in ("header", "builder"):
                 cases.append(dict(l=(hdr({f: v}) if via == "header" else "") + FLAG_L, builder=({f: v} if via == "builder" else {}),
                                   rt_l=hdr({f: v}) + FLAG_L, inputs=FLAG_INPUTS))
-    for _ in range(24 if thorough else 6):
+    for _ in range(60 if thorough else 6):
         hf = {f: rng.random() < 0.5 for f in rng.sample(LEXFLAGS, rng.randint(1, 3))}
         bf = {f: rng.random() < 0.5 for f in rng.sample(LEXFLAGS, rng.randint(1, 3))}
         merged = dict(hf)
         merged.update(bf)
         cases.append(dict(l=hdr(hf) + FLAG_L, builder=bf, rt_l=hdr(merged) + FLAG_L, inputs=FLAG_INPUTS))
-    sm = [i for i in p_lex.instances(rng.randrange(1 << 30), 0) if i["id"].startswith(("lexsm", "lex-fixed"))]
+    sm = [i for i in p_lex.instances(rng.randrange(1 << 30), 600 if thorough else 0) if i["id"].startswith(("lexsm", "lex-fixed"))]
     rng.shuffle(sm)
     fixed = [i for i in sm if i["id"].startswith("lex-fixed")]
     other = [i for i in sm if not i["id"].startswith("lex-fixed")]
-    for i in fixed + other[:(40 if thorough else 8)]:
+    for i in fixed + other[:(120 if thorough else 8)]:
         cases.append(dict(l=i["l"], builder={}, rt_l=i["l"], inputs=i["inputs"][:12]))
     for k, c in enumerate(cases):
         c["id"] = "lx%d" % k
@@ -527,7 +527,7 @@ def main(pid, tier, replay=None):
     seed = core.seed()
     rng = random.Random(seed * 29 + 13)
     core.build_harness()
-    n = 40 if tier == "thorough" else 8
+    n = 160 if tier == "thorough" else 8
     pairs = [gen_pair(rng, i) for i in range(2 * n)]
     pairs = buildable([fix_pair(p) for p in pairs], res.wd)[:n]
     inputs = {p["id"]: gen_inputs(p, rng, 80 if tier == "thorough" else 28) for p in pairs}
